@@ -1,2 +1,80 @@
-def compare_decode_api(ctx, cases):
-    pass
+"""Glue between the one-shot decode API of pyais and its extracted model (Model/DecodeApi.v), used by C04 (and the
+reader properties): the same argument lists through pyais.decode_nmea_and_ais / decode and through the driver command
+`decodeapi_full`, compared attribute by attribute; plus the labelling of generated carriers by the specification's own
+witness check (Spec/CarrierSpec.v carrier_checkb, driver command `carrierchk`)."""
+import os
+import sys
+
+sys.path.insert(0, os.path.dirname(os.path.dirname(os.path.abspath(__file__))))
+sys.path.insert(0, os.path.dirname(os.path.abspath(__file__)))
+import nmea_common as nc  # noqa: E402
+
+LAYER = 'H-decode-api'
+
+
+def as_bytes(parts):
+    """what decode() does with its arguments before parsing: str -> UTF-8 bytes"""
+    return [p.encode('utf-8') if isinstance(p, str) else bytes(p) for p in parts]
+
+
+def compare_decode_api(ctx, cases, strict_every=5, max_report=25):
+    """cases: sequences whose item [1] is the argument list (str or bytes items) handed to decode().
+    Model: decode_api strict (bytes of the arguments); implementation: decode_nmea_and_ais(*arguments) -- the assembled
+    sentence (raw, payload, bits, validity, message id, numbering ...), the message class and every field value, or the
+    exception class.  Every case in lenient mode, every [strict_every]-th one also with error_if_checksum_invalid."""
+    rep, model = ctx.rep, ctx.model
+    if not model or not cases:
+        return 0
+    reqs, origin = [], []
+    for k, case in enumerate(cases):
+        b = as_bytes(case[1])
+        reqs.append((False, b))
+        origin.append((k, False))
+        if strict_every and k % strict_every == 0:
+            reqs.append((True, b))
+            origin.append((k, True))
+    replies = nc.model_decode(model, reqs)
+    n_dis = 0
+    for (k, strict), (_, b), m in zip(origin, reqs, replies):
+        args = cases[k][1]
+        rep.case(('decode-api', strict, tuple(b)), kind='model-vs-code' + (':strict' if strict else ''))
+        res = nc.impl_decode(list(args), strict)
+        outcome = res[1] if res[0] == 'Raise' else 'Ok'
+        rep.count('decode-api-outcome:' + outcome)
+        if m[0] == 'Raise' and m[1] == 'Unmodelled':
+            rep.count('skipped:unmodelled')
+            continue
+        d = nc.diff_decode(res, m)
+        if d:
+            n_dis += 1
+            if n_dis <= max_report:
+                rep.disagree(LAYER, {'entry': 'decode_nmea_and_ais', 'strict': strict, 'parts': [p.hex() for p in b],
+                                     'text': [repr(p)[:140] for p in b], 'as_str': [isinstance(a, str) for a in args]},
+                             tuple(m[:2]) + (d,), tuple(res[:2]))
+    return n_dis
+
+
+def hx(b):
+    return b.hex() if b else '-'
+
+
+def carrier_request(payload, fill, seq, witness, parts):
+    """driver request for Spec/CarrierSpec.v carrier_checkb.  witness: per fragment, in fragment order, dicts with
+    chunk / talker / type / channel / checksum (bytes) / tag (bytes or None) / trailing (bytes)."""
+    w = [f'carrierchk {hx(payload)} {fill} {"None" if seq is None else seq} {len(witness)}']
+    for f in witness:
+        w += [hx(f['chunk']), hx(f['talker']), hx(f['type']), hx(f['channel']), hx(f['checksum']),
+              'None' if f['tag'] is None else hx(f['tag']), hx(f['trailing'])]
+    w += [hx(p) for p in as_bytes(parts)]
+    return ' '.join(w)
+
+
+def label_carriers(ctx, items):
+    """items: (payload bytes, fill, seq, witness, parts).  -> list of bool: inside the family of the specification."""
+    if not ctx.model or not items:
+        return []
+    out = ctx.model.ask_many([carrier_request(*it) for it in items])
+    bad = [o for o in out if o not in ('0', '1')]
+    if bad:
+        raise RuntimeError('driver: ' + bad[0][:200])
+    return [o == '1' for o in out]
